@@ -606,6 +606,10 @@ def gen_ops(rng, T, max_len):
     ops.append({'node': rng.randrange(nn), 'k': k, 'si': rng.randrange(2), 'pi': rng.randrange(2), 'ci': rng.randrange(8)})
     if rng.random() < 0.4:
       ops[-1]['buf'] = True
+  if rng.random() < 0.5:
+    # deterministic core of the working-buffer stratum: the same node is read at S0, at S1 and at S0 again through ONE array object
+    nd = rng.randrange(nn)
+    ops = [{'node': nd, 'k': k, 'si': si, 'pi': 1, 'ci': 0, 'buf': True} for k, si in (('cost', 0), ('cost', 1), ('deriv', 0), ('deriv', 1))] + ops
   return ops
 
 
